@@ -4234,6 +4234,24 @@ class TensorDictBase(MutableMapping):
     def _erase_cache(self):
         self._cache = None
 
+    def _erase_cache_up(self, _seen=None):
+        """Erases the cache of this tensordict and of every tensordict that holds it in a locked tree.
+
+        The reads memoised while locked are only invalidated by ``unlock_()``. The few writes that
+        rebind an entry (or change its metadata) without unlocking must call this, otherwise the
+        node and its lock parents keep returning what they memoised before the write.
+        """
+        if _seen is None:
+            _seen = set()
+        if id(self) in _seen:
+            return
+        _seen.add(id(self))
+        self._erase_cache()
+        for ref in self._lock_parents_weakrefs:
+            obj = ref()
+            if obj is not None:
+                obj._erase_cache_up(_seen)
+
     # Dim names functionality
     @property
     @abc.abstractmethod
